@@ -663,7 +663,12 @@ func vRunC12Roach(c *vCase) {
 	port := vFreeUDPPort()
 	nchan := 1 + r.Intn(3)
 	nsamp := 10 + r.Intn(30)
-	opts := AbacoUnwrapOptions{RescaleRaw: true, Unwrap: true, Bias: vChance(r, 0.5), PulseSign: vPick(r, 1, -1), ResetAfter: 20000}
+	// (the ROACH device always unwraps, with its own bit counts: of the options it takes the bias and the pulse sign, whatever the
+	// two Abaco switches say)
+	opts := AbacoUnwrapOptions{RescaleRaw: vChance(r, 0.6), Unwrap: vChance(r, 0.6), Bias: vChance(r, 0.5), PulseSign: vPick(r, 1, -1), ResetAfter: 20000}
+	if !opts.RescaleRaw {
+		opts.Unwrap = false // (unwrapping without rescaling is a combination Configure refuses)
+	}
 	base := make([]int, nchan)
 	step := make([]int, nchan)
 	for i := range base {
@@ -750,7 +755,10 @@ func vRunC12Roach(c *vCase) {
 		}
 		pos += FrameIndex(len(chs[0]))
 	}
-	bias := opts.calcBiasLevel()
+	bias := 0 // the documented bias: 0.38 of a flux quantum (2^16 counts), with the sign of the pulses
+	if opts.Bias {
+		bias = 24904 * opts.PulseSign
+	}
 	for ch := 0; ch < nchan; ch++ {
 		var raw, got []RawType
 		s := uint64(tap.first[0])
@@ -764,8 +772,8 @@ func vRunC12Roach(c *vCase) {
 		ref.UnwrapInPlace(&raw)
 		for i := range got {
 			if got[i] != raw[i] {
-				c.Violate("c12:device-path-split", "ROACH channel %d (bias %v, pulse sign %d): sample %d of the stream (block sizes %v) is %d, one unwrapper run over the whole stream gives %d: the result depends on how the device splits the stream into blocks",
-					ch, opts.Bias, opts.PulseSign, i, vBlockSizes(tap.blocks), got[i], raw[i])
+				c.Violate("c12:device-path-split", "ROACH channel %d (options %+v): sample %d of the stream (block sizes %v) is %d, one unwrapper run over the whole stream gives %d: the result depends on how the device splits the stream into blocks",
+					ch, opts, i, vBlockSizes(tap.blocks), got[i], raw[i])
 				return
 			}
 		}
